@@ -104,7 +104,7 @@ def shard_identity(seed, count):
         tn, row = e1prop.ROWS[name]
         w = e1prop.build_word(row, rng.getrandbits(32), rng.getrandbits(31))
         thumb = tn != 'arm'
-        cfgname = rng.choice(('v6', 'v7', 'v7-virt', 'v6-nosec', 'v7r'))
+        cfgname = rng.choice(('v6', 'v7', 'v7-virt', 'v6-nosec', 'v7r', 'v7-jz', 'v6-jz'))
         if not thumb:
             if 'c' not in row.fields:
                 continue
@@ -257,7 +257,7 @@ def _pass_tweak(rng, row, w, case):
             st[gen.bank_key(n, mode)] = (st['R.PC'] & ~0xFF) + 4 * rng.randrange(0, 0x30) + rng.choice((0, 1))
 
 
-PLAN_PASS = e1prop.Plan('C05', ALLROWS, cfgs=('v6', 'v7', 'v5'), case_kw=_pass_kw, tweak_case=_pass_tweak,
+PLAN_PASS = e1prop.Plan('C05', ALLROWS, cfgs=('v6', 'v7', 'v5', 'v7-jz'), case_kw=_pass_kw, tweak_case=_pass_tweak,
                         classify=lambda res, case: ['passing:' + ('it-last' if (case['state']['cpsr'] & 0x0600FC00) and ((case['state']['cpsr'] >> 25) & 3) == 0 and
                                                                   ((case['state']['cpsr'] >> 10) & 3) == 0b10 else 'other')] if res.cond_passed else [])
 
